@@ -652,26 +652,35 @@ def _stmt_text(fn, t):
 def check_unsqueeze(run, A):
     """stored weights of the integration models have the tied axes squeezed out (M-step) and re-inserted by
     pb_bss.utils.unsqueeze at the same positions (E-step)"""
-    import ast
     q = 'pb_bss.utils::unsqueeze'
     fn = A.prog.func(q)
-    src = {type(n).__name__: n for n in ast.walk(fn.node)}
-    txt = ' '.join(ast.unparse(fn.node).split())
-    fut = any(isinstance(n, ast.Assign) and ast.unparse(n.targets[0]) == 'future_ndim' and ast.unparse(n.value).replace(' ', '') in ('len(shape)+len(axis)', 'len(axis)+len(shape)')
-              for n in ast.walk(fn.node))
-    mod = any(isinstance(n, ast.ListComp) and isinstance(n.elt, ast.BinOp) and isinstance(n.elt.op, ast.Mod) and ast.unparse(n.elt.right) == 'future_ndim' for n in ast.walk(fn.node))
-    loop = [n for n in ast.walk(fn.node) if isinstance(n, ast.For) and isinstance(n.iter, ast.Call) and ast.unparse(n.iter.func) == 'sorted' and not n.iter.keywords]
-    ins = False
-    for l in loop:
-        for n in ast.walk(l):
-            if isinstance(n, ast.Call) and ast.unparse(n.func).endswith('.insert') and len(n.args) == 2 and ast.unparse(n.args[0]) == ast.unparse(l.target) and ast.unparse(n.args[1]) == '1':
-                ins = True
     g = A.graphs.get(fn)
     from ..walk import ret_alts
+    # axis = [a % (len(shape) + len(axis)) for a in axis]
+    fut = mod = ins = False
+    loops = [l for l in g.loops if l.kind == 'for']
+    for l in loops:
+        it = strip_views(l.iter)
+        if not (is_call_to(it, 'builtin.sorted') and not call_parts(it)[2] and len(call_parts(it)[1]) == 1):
+            continue
+        cp = strip_views(call_arg(it, 0))
+        if cp.op == 'comp' and len(cp.args[1]) == 1:
+            el = strip_views(cp.args[1][0])
+            if el.op == 'binop' and el.args[0] == 'Mod' and strip_views(el.args[1]).op == 'elem':
+                mod = True
+                m = strip_views(el.args[2])
+                if m.op == 'binop' and m.args[0] == 'Add':
+                    parts = [strip_views(m.args[1]), strip_views(m.args[2])]
+                    lens = [x for x in parts if is_call_to(x, 'builtin.len')]
+                    fut = len(lens) == 2 and any(strip_views(call_arg(x, 0)).op == 'param' and strip_views(call_arg(x, 0)).args[0] == 'axis' for x in lens)
+        for e in l.body_events:
+            if e.kind == 'call' and call_parts(e.term)[0] == 'method:insert':
+                _, pos, _ = call_parts(e.term)
+                ins = ins or (len(pos) == 3 and strip_views(pos[1]).op == 'elem' and strip_views(pos[1]).extra is l and const_val(pos[2]) == 1)
     r = [strip_views(x) for x in ret_alts(g)]
     resh = len(r) == 1 and is_call_to(r[0], 'numpy.reshape')
     run.check(fut and mod and ins and resh, 'R-AXIS', 'unsqueeze: singleton axes inserted at the tied positions (modulo the final rank, ascending)', fn.loc(), '',
-              f'future rank = len(shape)+len(axis): {fut}; axes normalised modulo it: {mod}; inserted in ascending order: {ins}; reshaped: {resh}', construct=f'R-AXIS::{q}::insertion')
+              f'axes normalised modulo len(shape)+len(axis): {fut and mod}; inserted as size-1 axes in ascending order: {ins}; reshaped: {resh}', construct=f'R-AXIS::{q}::insertion')
     for cname, mod_ in (('GCACGMM', 'gcacgmm'), ('VMFCACGMM', 'vmfcacgmm')):
         fp = A.prog.func(f'{D}{mod_}::{cname}._predict')
         gp = A.graphs.get(fp)
